@@ -131,6 +131,7 @@ def _fold_locals(model: Model):
         raise AnalysisError("anchor module vanished: y0.parser.internal")
     table: dict[str, str] = {}
     bound_values: dict = {}
+    gen_funcs: dict = {}
     found = False
 
     def ev_iter(e, env):
@@ -143,6 +144,20 @@ def _fold_locals(model: Model):
                 return out
             if q == "range":
                 return list(range(*[ev_val(a, env) for a in e.args]))
+            if isinstance(e.func, ast.Name) and e.func.id in gen_funcs and not e.args and not e.keywords:
+                # a module-level generator without parameters: its yields, in order
+                env2 = {"__yield__": []}
+                run(gen_funcs[e.func.id].body, env2)
+                return list(env2["__yield__"])
+        if isinstance(e, (ast.GeneratorExp, ast.ListComp)) and len(e.generators) == 1 and isinstance(e.generators[0].target, ast.Name):
+            g = e.generators[0]
+            out_ = []
+            for it in ev_iter(g.iter, env):
+                env3 = dict(env)
+                env3[g.target.id] = it
+                if all(ev_cond(c, env3) for c in g.ifs):
+                    out_.append(ev_val(e.elt, env3))
+            return out_
         v = ev_val(e, env)
         return list(v)
 
@@ -229,6 +244,36 @@ def _fold_locals(model: Model):
                 run(st.body if c else st.orelse, env)
             elif isinstance(st, ast.Continue):
                 raise Cont()
+            elif isinstance(st, ast.Expr) and isinstance(st.value, ast.Yield) and "__yield__" in env and st.value.value is not None:
+                try:
+                    env["__yield__"].append(ev_val(st.value.value, env))
+                except KeyError:
+                    pass
+            elif isinstance(st, ast.Expr) and isinstance(st.value, ast.YieldFrom) and "__yield__" in env:
+                try:
+                    env["__yield__"].extend(ev_iter(st.value.value, env))
+                except KeyError:
+                    pass
+            elif isinstance(st, ast.Expr) and isinstance(st.value, ast.Call) and ast.unparse(st.value.func) == "LOCALS.update" and len(st.value.args) == 1 \
+                    and isinstance(st.value.args[0], (ast.GeneratorExp, ast.ListComp)) and isinstance(st.value.args[0].elt, ast.Tuple) and len(st.value.args[0].elt.elts) == 2:
+                c_ = st.value.args[0]
+                if len(c_.generators) == 1 and isinstance(c_.generators[0].target, ast.Name):
+                    g_ = c_.generators[0]
+                    try:
+                        items_ = ev_iter(g_.iter, env)
+                    except KeyError:
+                        items_ = []
+                    for it in items_:
+                        env3 = dict(env)
+                        env3[g_.target.id] = it
+                        try:
+                            if not all(ev_cond(cc, env3) for cc in g_.ifs):
+                                continue
+                            key = ev_val(c_.elt.elts[0], env3)
+                            table[key] = ast.unparse(c_.elt.elts[1])
+                            bound_values[key] = ev_val(c_.elt.elts[1], env3)
+                        except KeyError:
+                            pass
             elif isinstance(st, ast.Expr) and isinstance(st.value, ast.Call) and ast.unparse(st.value.func) == "LOCALS.update" and st.value.args and isinstance(st.value.args[0], ast.Dict):
                 for k, v in zip(st.value.args[0].keys, st.value.args[0].values):
                     if isinstance(k, ast.Constant):
@@ -251,6 +296,8 @@ def _fold_locals(model: Model):
             return bool(ev_val(e, env))  # truthiness of a folded value (`if index:` is False for 0 AND for None)
         raise KeyError("cond")
 
+    gen_funcs.update({n.name: n for n in m.tree.body if isinstance(n, ast.FunctionDef) and not n.args.args and not n.args.kwonlyargs
+                      and any(isinstance(x, (ast.Yield, ast.YieldFrom)) for x in ast.walk(n))})
     run(m.tree.body, {})
     if not found:
         raise AnalysisError("anchor vanished: LOCALS dict in y0.parser.internal")
